@@ -41,18 +41,27 @@ def lit_node(r, cls):
         s = '(double)(%s)' % s
     return Node('lit', val=v, kind=k, lit=s)
 
-def gen_tree(r, cls, depth, vars_):
-    """random tree whose value has class cls; every operator node has a class-typed operand"""
+SUBCLS = {'q': ['z'], 'f': ['z', 'q'], 'z': []}
+def gen_tree(r, cls, depth, vars_, mixed=None):
+    """random tree whose value has class cls; every operator node has a class-typed operand.  mixed = {class: variable names}: one operand of
+    a + - * / node may then be a tree of a *lower* class (mpz inside mpq, mpz/mpq inside mpf), which the expression templates promote; it is
+    wrapped in a 'cast' node so that the step-by-step evaluation converts with mpq_set_z / mpf_set_z / mpf_set_q at exactly that point."""
     if depth == 0 or r.random() < 0.25:
-        return Node('var', val=r.choice(vars_))
+        return Node('var', val=r.choice(vars_ if not isinstance(vars_, dict) else vars_[cls]))
+    if isinstance(vars_, dict): mixed = vars_; vars_ = mixed[cls]
     ops = {'z': ['+', '-', '*', '/', '%', '&', '|', '^', '~', 'neg', 'abs', '<<', '>>', 'sqrt'], 'q': ['+', '-', '*', '/', 'neg', 'abs', '<<', '>>'], 'f': ['+', '-', '*', '/', 'neg', 'abs', 'sqrt']}[cls]
     op = r.choice(ops)
-    if op in ('~', 'neg', 'abs', 'sqrt'): return Node(op, [gen_tree(r, cls, depth - 1, vars_)])
-    if op in ('<<', '>>'): return Node(op, [gen_tree(r, cls, depth - 1, vars_), Node('lit', val=r.choice([0, 1, 5, 63, 64, 65, 130]), kind='shift')])
-    a = gen_tree(r, cls, depth - 1, vars_)
+    if op in ('~', 'neg', 'abs', 'sqrt'): return Node(op, [gen_tree(r, cls, depth - 1, vars_, mixed)])
+    if op in ('<<', '>>'): return Node(op, [gen_tree(r, cls, depth - 1, vars_, mixed), Node('lit', val=r.choice([0, 1, 5, 63, 64, 65, 130]), kind='shift')])
+    a = gen_tree(r, cls, depth - 1, vars_, mixed)
     c = r.random()
+    if mixed and SUBCLS[cls] and op in ('+', '-', '*', '/') and c < 0.4:
+        sub = r.choice(SUBCLS[cls])
+        b = Node('cast', [gen_tree(r, sub, max(depth - 1, r.randint(0, 2)), mixed[sub], mixed)], kind=sub)
+        if r.random() < 0.5: a, b = b, a
+        return Node(op, [a, b])
     if c < 0.3: b = lit_node(r, cls)
-    else: b = gen_tree(r, cls, depth - 1, vars_)
+    else: b = gen_tree(r, cls, depth - 1, vars_, mixed)
     if b.op == 'lit' and r.random() < 0.5: a, b = b, a
     return Node(op, [a, b])
 
@@ -63,6 +72,7 @@ def evaluate(n, env, cls):
         v = n.val
         if isinstance(v, float): return int(v) if cls == 'z' else Fraction(v)
         return v if cls == 'z' else Fraction(v)
+    if n.op == 'cast': return Fraction(evaluate(n.kids[0], env, n.kind))
     k = [evaluate(x, env, cls) for x in n.kids]
     if n.op == '+': return k[0] + k[1]
     if n.op == '-': return k[0] - k[1]
@@ -90,6 +100,7 @@ def evaluate(n, env, cls):
 def cxx(n):
     if n.op == 'var': return n.val
     if n.op == 'lit': return n.lit if n.kind != 'shift' else '%dUL' % n.val
+    if n.op == 'cast': return cxx(n.kids[0])
     k = [cxx(x) for x in n.kids]
     if n.op in ('~',): return '(~%s)' % k[0]
     if n.op == 'neg': return '(-%s)' % k[0]
@@ -100,7 +111,11 @@ PFX = {'z': 'mpz', 'q': 'mpq', 'f': 'mpf'}
 def cstep(n, cls, out, ctr, prec):
     """emit C statements computing node n into a fresh temporary; returns its name"""
     ctr[0] += 1; t = 't%d' % ctr[0]; P = PFX[cls]
+    if len(ctr) > 1: ctr[1].append(P)
     out.append('%s_t %s; %s;' % (P, t, 'mpf_init2(%s, %d)' % (t, prec) if cls == 'f' else '%s_init(%s)' % (P, t)))
+    if n.op == 'cast':
+        k = cstep(n.kids[0], n.kind, out, ctr, prec)
+        out.append('%s_set_%s(%s, %s);' % (P, n.kind, t, k)); return t
     if n.op == 'var': out.append('%s_set(%s, %s.get_%s_t());' % (P, t, n.val, P)); return t
     if n.op == 'lit':
         v = n.val
@@ -122,8 +137,10 @@ def cstep(n, cls, out, ctr, prec):
 
 def sig(n):
     if n.op in ('var', 'lit'): return n.op if n.op == 'var' else n.kind
+    if n.op == 'cast': return 'promoted-' + n.kind + ('-var' if n.kids[0].op == 'var' else '-expr')
     return n.op
 def signatures(n, target, acc):
+    if n.op == 'cast': signatures(n.kids[0], target, acc); return
     if n.op not in ('var', 'lit'):
         acc.add((n.op, tuple(sig(k) for k in n.kids), target in uses(n)))
         for k in n.kids: signatures(k, target, acc)
@@ -164,11 +181,21 @@ def gen_program(r, pid):
             elif cls == 'q': v = Fraction(gen.val(r, 2), abs(gen.val(r, 2, False)) or 1); L.append('mpq_class %s("%d/%d");' % (nme, v.numerator, v.denominator))
             else: v = Fraction(r.randint(-10 ** 6, 10 ** 6), 1 << r.randint(0, 20)); L.append('mpf_class %s("%d", 256); %s /= %d;' % (nme, v.numerator, nme, v.denominator))
             vals[nme] = v
-        nst = 16 if cls != 'f' else 10
+        # lower-class variables for mixed-class (promoting) expressions
+        mixed = {cls: names}
+        if cls in ('q', 'f'):
+            mixed['z'] = ['za', 'zb']
+            for nme in mixed['z']:
+                v = r.choice([gen.val(r, 2), gen.val(r, 1), r.randint(-9, 9), 1 << 64]); L.append('mpz_class %s("%d");' % (nme, v)); vals[nme] = v
+        if cls == 'f':
+            mixed['q'] = ['qa', 'qb']
+            for nme in mixed['q']:
+                v = Fraction(gen.val(r, 1), abs(gen.val(r, 1, False)) or 1); L.append('mpq_class %s("%d/%d");' % (nme, v.numerator, v.denominator)); vals[nme] = v
+        nst = 20 if cls != 'f' else 12
         made = 0; tries = 0
         while made < nst and tries < 400:
             tries += 1
-            tree = gen_tree(r, cls, r.randint(1, 4), names)
+            tree = gen_tree(r, cls, r.randint(1, 4), names, mixed if cls != 'z' and r.random() < 0.6 else None)
             if tree.op == 'var': continue
             target = r.choice(names)
             mode = r.choice(['=', '=', '=', 'op='])
@@ -190,7 +217,7 @@ def gen_program(r, pid):
                 except (ZeroDivisionError, ValueError, OverflowError): continue
             sid += 1; made += 1
             signatures(full, target, sigs)
-            stmts = []; ctr = [0]
+            stmts = []; ctr = [0, []]
             # (2) step by step first, from the current variable values
             t = cstep(full, cls, stmts, ctr, 256)
             L.append('{ ' + ' '.join(stmts))
@@ -198,7 +225,7 @@ def gen_program(r, pid):
             L.append('%s %s %s;' % (target, '=' if mode == '=' else op2 + '=', cxx(tree)))
             P = PFX[cls]; pr = {'z': 'pz', 'q': 'pq', 'f': 'pf_'}[cls]
             L.append('%s("T", %d, %s.get_%s_t()); %s("C", %d, %s);' % (pr, sid, target, P, pr, sid, t))
-            L.append(' '.join('%s_clear(t%d);' % (P, i) for i in range(1, ctr[0] + 1)) + ' }')
+            L.append(' '.join('%s_clear(t%d);' % (pc, i + 1) for i, pc in enumerate(ctr[1])) + ' }')
             exp[sid] = (cls, val, '%s %s %s' % (target, '=' if mode == '=' else op2 + '=', cxx(tree)))
             if cls == 'f': vals[target] = None if False else feval_store(full, vals)
             else: vals[target] = val
@@ -398,6 +425,7 @@ def feval(n, env):
     """approximate float evaluation for domain screening of mpf trees"""
     if n.op == 'var': return float(env[n.val])
     if n.op == 'lit': return float(n.val)
+    if n.op == 'cast': return float(evaluate(n.kids[0], env, n.kind))
     k = [feval(x, env) for x in n.kids]
     if n.op == '+': return k[0] + k[1]
     if n.op == '-': return k[0] - k[1]
